@@ -311,14 +311,20 @@ void lsCovariance(vf::Ctx & c)
   struct Prob {int m; size_t path; double cond, var; bool precond; size_t yClass; uint64_t seed; size_t handOver;};
   std::vector<Prob> probs;
   double condMax = sizeof(S) == 4 ? 30.0 : 1e3;
-  bool anyPrecond = false, zeroY = false, anyHandOver = false;
+  bool anyPrecond = false, zeroY = false, anyHandOver = false, tinyVar = false, zeroVar = false;
   for (int q = 0; q < nProblems; ++q) {
     Prob pr;
     pr.m = static_cast<int>(c.s.len("data_size", p, 300));
     if (pr.m < p) {pr.m = p;}
     pr.path = c.s.pick("path", {1, 1, 1});  // SVD, Cholesky, weighted
     pr.cond = c.s.rlog("cond_J", 1.0, condMax);
-    pr.var = c.s.rlog("data_variance", 1e-4, 1e2);
+    {
+      // ordinary / tiny (sensor noise far below the unit, e.g. nanoseconds in seconds) / exactly zero (perfect data)
+      size_t vk = c.s.pick("variance_class", {5, 2, 1});
+      pr.var = vk == 0 ? c.s.rlog("data_variance", 1e-4, 1e2) : (vk == 1 ? c.s.rlog("data_variance", 1e-24, 1e-4) : 0.0);
+      tinyVar = tinyVar || vk == 1;
+      zeroVar = zeroVar || vk == 2;
+    }
     pr.precond = c.s.flag("diagonal_preconditioner", 3, 4);
     pr.yClass = c.s.pick("observations", {4, 1, 1});  // random, all zero (J^T Y = 0), exactly consistent Y = J x
     pr.seed = c.s.seed("content_seed");
@@ -331,6 +337,8 @@ void lsCovariance(vf::Ctx & c)
   c.nontrivial(anyPrecond);
   if (anyPrecond) {c.label("non-identity-preconditioner");}
   if (zeroY) {c.label("zero-observations(J^T Y = 0)");}
+  if (tinyVar) {c.label("data-variance-below-1e-4");}
+  if (zeroVar) {c.label("data-variance-exactly-zero");}
   if (nProblems > 1) {c.label("solver-reused");}
   if (anyHandOver) {c.label("covariance-read-after-copy-or-move");}
   static const char * pn[] = {"svd-path", "cholesky-path", "weighted-path"};
@@ -396,6 +404,12 @@ void lsCovariance(vf::Ctx & c)
     double eps = std::numeric_limits<S>::epsilon();
     double condN = pr.cond * pr.cond * (pr.path == 2 ? 16 : 1);
     double tol = 64 * eps * condN * p + 1e-12;
+    if (pr.var == 0.0) {
+      VF_CHECK(c, (cov.array() == S(0)).all(), "solve #%d of %d on one solver: data variance 0, but the estimate covariance is not the zero matrix (largest entry %.3g)",
+        idx, nProblems, static_cast<double>(cov.cwiseAbs().maxCoeff()));
+      idx++;
+      continue;
+    }
     double err = (cov.template cast<double>() - ref).norm() / ref.norm();
     c.maxStat(sizeof(S) == 4 ? "ls-covariance-relative-error/tol(float)" : "ls-covariance-relative-error/tol(double)", err / tol);
     VF_CHECK(c, cov.allFinite() && err <= tol, "solve #%d of %d on one solver: estimate covariance differs from variance * A (J^T J)^-1 A by %.3g relative (tol %.3g; p=%d m=%d cond(J)=%.3g path=%s precond=%d observations=%s)",
